@@ -101,6 +101,11 @@ pub struct Position {
     pub prelude: Vec<Vec<u8>>,
     /// an output coordinate that only a rejected block of the prelude named as its input
     pub phantom: Option<Slip>,
+    /// when set: the node under test is not fed the path to `tip` but these blocks in this order
+    /// (it witnessed a fork and reorganised), with this prune_after_blocks setting
+    pub witnessed: Option<(Vec<usize>, u64)>,
+    /// an output that exists only on a fork the node abandoned
+    pub abandoned_output: Option<Slip>,
 }
 
 fn world(g: u64) -> World {
@@ -131,7 +136,7 @@ pub fn positions(tier: &Tier) -> Result<Vec<Position>, String> {
         let mut w = world(10);
         let a = w.honest_child(0, 0, "F2")?;
         let b = w.honest_child(a, 0, "F3")?;
-        out.push(Position { name: "fresh".into(), w, tip: b, side: None, spent_elsewhere: None, expired_present: None, prelude: vec![], phantom: None });
+        out.push(Position { name: "fresh".into(), w, tip: b, side: None, spent_elsewhere: None, expired_present: None, prelude: vec![], phantom: None, witnessed: None, abandoned_output: None });
     }
     // after a reorganisation: X1 loses against Y1,Y2; an output spent only on X is spendable again
     {
@@ -146,7 +151,7 @@ pub fn positions(tier: &Tier) -> Result<Vec<Position>, String> {
         let y1 = w.honest_child(s, 2, "Y1")?;
         let y2 = w.honest_child(y1, 2, "Y2")?;
         let _ = x1;
-        out.push(Position { name: "after-reorg".into(), w, tip: y2, side: Some((x1, y1)), spent_elsewhere: Some(sl), expired_present: None, prelude: vec![], phantom: None });
+        out.push(Position { name: "after-reorg".into(), w, tip: y2, side: Some((x1, y1)), spent_elsewhere: Some(sl), expired_present: None, prelude: vec![], phantom: None, witnessed: None, abandoned_output: None });
     }
     // window wrapped (g=3), zero fees: expired outputs were rebroadcast
     {
@@ -155,7 +160,7 @@ pub fn positions(tier: &Tier) -> Result<Vec<Position>, String> {
         for i in 0..8 {
             t = w.honest_child(t, 0, &format!("W{}", i + 2))?;
         }
-        out.push(Position { name: "wrapped-g3".into(), w, tip: t, side: None, spent_elsewhere: None, expired_present: None, prelude: vec![], phantom: None });
+        out.push(Position { name: "wrapped-g3".into(), w, tip: t, side: None, spent_elsewhere: None, expired_present: None, prelude: vec![], phantom: None, witnessed: None, abandoned_output: None });
     }
     // window wrapped with a fee level >= 1 nolan/byte: a dust output is not rebroadcast but
     // stays in the map until the 2g purge
@@ -187,7 +192,7 @@ pub fn positions(tier: &Tier) -> Result<Vec<Position>, String> {
         }
         let dust = dust.ok_or("no dust")?;
         let present = w.ledgers[t].utxo.contains(&dust.get_utxoset_key());
-        out.push(Position { name: "wrapped-g3-fees".into(), w, tip: t, side: None, spent_elsewhere: None, expired_present: if present { Some(dust) } else { None }, prelude: vec![], phantom: None });
+        out.push(Position { name: "wrapped-g3-fees".into(), w, tip: t, side: None, spent_elsewhere: None, expired_present: if present { Some(dust) } else { None }, prelude: vec![], phantom: None, witnessed: None, abandoned_output: None });
     }
     // after a reorganisation attempt that failed part-way: R3 is the tip, X3 (sibling of R3) is
     // valid, X4 on top of it spends an output that never existed; the attempt winds X3, fails at
@@ -204,7 +209,27 @@ pub fn positions(tier: &Tier) -> Result<Vec<Position>, String> {
         let tx = make_tx(&[ph.clone()], &[(att.public, ph.amount)], &att, ts, b"phantom");
         let x4 = attacker_block(&w, x3, &Candidate { edit: String::new(), tx, tx2: None, control: false }, false)?;
         let x3_bytes = w.blocks[x3].bytes.clone();
-        out.push(Position { name: "after-failed-reorg".into(), w, tip: b, side: None, spent_elsewhere: None, expired_present: None, prelude: vec![x3_bytes, x4], phantom: Some(ph) });
+        out.push(Position { name: "after-failed-reorg".into(), w, tip: b, side: None, spent_elsewhere: None, expired_present: None, prelude: vec![x3_bytes, x4], phantom: Some(ph), witnessed: None, abandoned_output: None });
+    }
+    // a node that keeps only the tip's transactions in memory (prune_after_blocks = 1) followed a
+    // two-block fork X1, X2 (X1 carries a payment by the attacker) and then reorganised to Y1..Y3:
+    // X1 had already dropped its transactions when it was unwound. Its outputs exist on no chain.
+    {
+        let mut w = world(10);
+        let s = w.honest_child(0, 0, "P2")?;
+        let ts = w.child_ts(s, 1);
+        let k3 = key(ATTACKER);
+        let sl = w.ledgers[s].unspent_of(&k3.public)[0].clone();
+        let tx = w.spend(&sl, &k3, &key(1).public, 10, 0, ts);
+        let x1 = w.build(s, ts, None, vec![tx], "PX1")?;
+        let x2 = w.honest_child(x1, 0, "PX2")?;
+        let y1 = w.honest_child(s, 2, "PY1")?;
+        let y2 = w.honest_child(y1, 2, "PY2")?;
+        let y3 = w.honest_child(y2, 2, "PY3")?;
+        let gone = w.ledgers[x1].unspent_of(&k3.public).into_iter().find(|o| o.block_id == w.blocks[x1].id);
+        let mut order = w.path(s);
+        order.extend([x1, x2, y1, y2, y3]);
+        out.push(Position { name: "after-reorg-with-pruned-memory".into(), w, tip: y3, side: None, spent_elsewhere: Some(sl), expired_present: None, prelude: vec![], phantom: None, witnessed: Some((order, 1)), abandoned_output: gone });
     }
     let _ = tier;
     Ok(out)
@@ -301,6 +326,10 @@ pub fn candidates(p: &Position) -> Vec<Candidate> {
             // replay of the very transaction that spent it
             v.push(Candidate { edit: "replayed-transaction".into(), tx: stx.clone(), tx2: None, control: false });
         }
+    }
+    // created only on a fork the node followed and then abandoned
+    if let Some(a) = &p.abandoned_output {
+        v.push(Candidate { edit: "output-created-only-on-an-abandoned-fork".into(), tx: pay(a), tx2: None, control: false });
     }
     // named as an input only by a block the node rejected
     if let Some(ph) = &p.phantom {
@@ -507,8 +536,29 @@ pub fn attacker_block(w: &World, parent: usize, c: &Candidate, first: bool) -> R
 }
 
 /// the node under test for the pool / verification gates: genesis..tip, then the position's prelude
+/// genesis..tip in order, or (at the position's own tip) the deliveries the position prescribes
+fn base_node(p: &Position, tip: usize) -> Result<LedgerNode, String> {
+    match &p.witnessed {
+        Some((order, prune)) if tip == p.tip => {
+            let mut cfg = p.w.cfg.clone();
+            cfg.consensus.prune_after_blocks = *prune;
+            let mut n = LedgerNode::new(key(9), cfg);
+            for &i in order.iter() {
+                if !n.add_block_bytes(&p.w.blocks[i].bytes).is_done() {
+                    return Err(format!("witnessed delivery of {} aborted", p.w.blocks[i].label));
+                }
+            }
+            if n.tip().1 != p.w.blocks[tip].hash {
+                return Err("the witnessed deliveries do not end on the position's tip".into());
+            }
+            Ok(n)
+        }
+        _ => p.w.node_at(tip, key(9)),
+    }
+}
+
 fn node_with_prelude(p: &Position, tip: usize) -> Result<LedgerNode, String> {
-    let mut n = p.w.node_at(tip, key(9))?;
+    let mut n = base_node(p, tip)?;
     if tip == p.tip {
         for b in p.prelude.iter() {
             let _ = n.add_block_bytes(b);
@@ -540,8 +590,9 @@ fn gate_block(w: &World, p: &Position, tip: usize, c: &Candidate, first: bool, s
         }
         let _ = n.add_block_bytes(&w.blocks[parent].bytes);
     } else {
-        for i in w.path(parent) {
-            let _ = n.add_block_bytes(&w.blocks[i].bytes);
+        match base_node(p, parent) {
+            Ok(b) => n = b,
+            Err(e) => return (Verdict::Rejected, format!("no node: {}", e)),
         }
         if tip == p.tip {
             for b in p.prelude.iter() {
